@@ -27,6 +27,10 @@ def verus_version():
 
 def classify(msg):
     m = msg.lower()
+    # well-formedness errors of the generated file (not proof obligations): a loop or recursive function the proof script has no
+    # `decreases` for, a definitional cycle. They mean "the script does not fit this code" -> compile-error -> undecided, never a failure
+    if "must have a decreases clause" in m or "cyclic self-reference" in m or "decreases clause" in m and "must" in m:
+        return None
     if "postcondition not satisfied" in m:
         return "postcondition"
     if "index in bounds" in m or "index out of bounds" in m:
